@@ -113,6 +113,38 @@ def stir():
     quiet(abandoned)
 
 
+def scribble(x):
+    """Overwrite a RESULT the library handed out (a message, a list of them, the list
+    returned by bytes(), a dict): results belong to the caller, so nothing the
+    library does later may depend on them.  Never raises."""
+    try:
+        if isinstance(x, (list, tuple)) and x and not isinstance(x[0], int):
+            for y in x:
+                scribble(y)
+            return
+        if isinstance(x, bytearray) or (isinstance(x, list) and (not x or isinstance(x[0], int))):
+            for i in range(len(x)):
+                x[i] = 0x55
+            x.insert(0, 0x60)
+            return
+        if isinstance(x, dict):
+            for k in list(x):
+                x[k] = 99999
+            x['scribbled'] = 1
+            return
+        if hasattr(x, 'is_meta') or hasattr(x, 'bytes'):
+            for name, val in (('time', 424242), ('channel', 13), ('note', 99), ('program', 99), ('control', 99),
+                              ('value', 99), ('velocity', 99), ('pitch', 999), ('data', (0x55, 0x2a)), ('text', 'zz'),
+                              ('name', 'zz'), ('tempo', 424242)):
+                if name in vars(x):
+                    try:
+                        setattr(x, name, val)
+                    except Exception:
+                        pass
+    except Exception:
+        pass
+
+
 def _stirred(worker, batch):
     stir()
     return worker(batch)
@@ -462,6 +494,10 @@ def chunks(seq, n):
 
 # ---------------------------------------------------------------- parallel replay
 
+import threading as _thr
+_COLLECT_LOCK = _thr.RLock()
+
+
 class ParallelReplay:
     """Feed batches of emitted rows to worker processes while TLC is running.
 
@@ -495,6 +531,10 @@ class ParallelReplay:
 
     def _collect(self, ar):
         r = ar.get(timeout=self.batch_timeout)
+        with _COLLECT_LOCK:
+            self._account(r)
+
+    def _account(self, r):
         self.n += r.get('n', 0)
         self.ctx.replayed += r.get('n', 0)
         for key, case, msg in r.get('viol', []):
